@@ -42,6 +42,8 @@ type Group struct {
 	Bounds      string                         `json:"bounds"`
 	NoCosim     bool                           `json:"no_cosim"`
 	LossyFmt    bool                           `json:"lossy_fmt"`
+	LockGuard   *symx.LockGuard                `json:"lock_guard"`
+	RaceFn      string                         `json:"race_fn"`
 }
 
 type Spec struct {
@@ -171,6 +173,7 @@ type candidate struct {
 	harness string
 	pkg     string
 	okCase  bool // co-simulation witness: expected result "ok"
+	raceFn  string
 }
 
 func main() {
@@ -292,6 +295,7 @@ func main() {
 			cfg.Deadline = time.Now().Add(time.Duration(sec) * time.Second)
 			cfg.AllocFactor, cfg.AllocBase = g.AllocFactor, g.AllocBase
 			cfg.LossyFmt = g.LossyFmt
+			cfg.LockGuard = g.LockGuard
 			if g.InputLenP != "" {
 				cfg.InputLen = in.params[g.InputLenP]
 			}
@@ -407,7 +411,7 @@ func main() {
 			for _, v := range o.Violations {
 				vv := v
 				vv.Key = key
-				cands = append(cands, candidate{v: vv, harness: h, pkg: in.g.Pkg})
+				cands = append(cands, candidate{v: vv, harness: h, pkg: in.g.Pkg, raceFn: in.g.RaceFn})
 			}
 		}
 		if rep.Witness != nil && !in.g.NoCosim {
@@ -538,6 +542,32 @@ func main() {
 			confirmed[ck] = &c
 		}
 	}
+	// lock-discipline violations are confirmed natively by the race detector on a concurrent driver
+	if !*noReplay {
+		raceRes := map[string]string{}
+		for _, k := range keyOrder {
+			c := byKey[k][0]
+			if c.v.Kind != "lock" || confirmed[k] != nil {
+				continue
+			}
+			if c.raceFn == "" {
+				continue
+			}
+			rk := c.pkg + "/" + c.raceFn
+			if _, done := raceRes[rk]; !done {
+				raceRes[rk] = nativeRace(c.pkg, spec.HarnessDirs, c.raceFn)
+				replays++
+			}
+			if strings.Contains(raceRes[rk], "DATA RACE") {
+				cc := c
+				cc.v.Msg += " | native: go test -race reports a DATA RACE in " + c.raceFn
+				confirmed[k] = &cc
+				delete(unconfirmed, k)
+			} else {
+				unconfirmed[k] = "race detector silent: " + firstLine(raceRes[rk])
+			}
+		}
+	}
 	var masked []string
 	for k, r := range unconfirmed {
 		if mb, ok := maskedBy[k]; ok && (confirmed[mb] != nil || confirmed[mb+"\x00known"] != nil) {
@@ -562,7 +592,7 @@ func main() {
 		k := c.v.Key
 		path := filepath.Join(replayDir, sanitize(ck)+".json")
 		rec := map[string]any{"property": prop, "obligation": k, "package": module + "/" + c.pkg, "pkg_rel": c.pkg, "harness": c.harness,
-			"harness_dirs": spec.HarnessDirs, "params": c.v.Params, "inputs": c.v.Inputs, "kind": c.v.Kind, "observed": c.v.Msg, "where": c.v.Where, "replayed": !*noReplay}
+			"harness_dirs": spec.HarnessDirs, "params": c.v.Params, "inputs": c.v.Inputs, "kind": c.v.Kind, "race_fn": c.raceFn, "observed": c.v.Msg, "where": c.v.Where, "replayed": !*noReplay}
 		jb, _ := json.MarshalIndent(rec, "", " ")
 		os.WriteFile(path, jb, 0o644)
 		if kf := matchKnown(known, k, c.v.Params); kf != nil {
@@ -787,7 +817,7 @@ type replayOut struct {
 	alloc  int64
 }
 
-var harnessFuncRe = regexp.MustCompile(`(?m)^func (H_\w+)\(\)`)
+var harnessFuncRe = regexp.MustCompile(`(?m)^func ((?:H|R)_\w+)\(\)`)
 
 func nativeReplay(pkgRel string, harnessDirs []string, cs []candidate) ([]replayOut, error) {
 	tmp, err := os.MkdirTemp("", "verif-replay-")
@@ -864,7 +894,12 @@ func nativeReplay(pkgRel string, harnessDirs []string, cs []candidate) ([]replay
 		cb, _ := json.Marshal(cases)
 		cp := filepath.Join(tmp, "cases.json")
 		os.WriteFile(cp, cb, 0o644)
-		cmd := exec.Command("go", "test", "-v", "-vet=off", "-count=1", "-run", "^TestVerifReplay$", "-timeout", "600s", "-overlay", ovPath, "./"+pkgRel)
+		args := []string{"test", "-v", "-vet=off", "-count=1", "-run", "^TestVerifReplay$", "-timeout", "600s", "-overlay", ovPath}
+		if raceMode {
+			args = append(args, "-race")
+		}
+		args = append(args, "./"+pkgRel)
+		cmd := exec.Command("go", args...)
 		cmd.Dir = repo
 		cmd.Env = append(goEnv(), "VERIF_REPLAY="+cp)
 		out, _ := cmd.CombinedOutput()
@@ -883,6 +918,13 @@ func nativeReplay(pkgRel string, harnessDirs []string, cs []candidate) ([]replay
 			outs[start+idx] = replayOut{f[3], al}
 			last = idx
 			n++
+		}
+		if raceMode {
+			res := "no race reported"
+			if strings.Contains(string(out), "DATA RACE") {
+				res = "DATA RACE"
+			}
+			return []replayOut{{res, 0}}, nil
 		}
 		if n == 0 {
 			return nil, fmt.Errorf("no replay output: %s", tail(string(out), 1500))
@@ -916,6 +958,21 @@ func tail(s string, n int) string {
 	return s
 }
 
+// nativeRace runs the named concurrent driver of the harness package under the race detector.
+func nativeRace(pkgRel string, harnessDirs []string, fn string) string {
+	c := candidate{v: symx.Violation{Key: "race", Kind: "race"}, harness: fn, pkg: pkgRel}
+	prev := raceMode
+	raceMode = true
+	defer func() { raceMode = prev }()
+	outs, err := nativeReplay(pkgRel, harnessDirs, []candidate{c})
+	if err != nil {
+		return err.Error()
+	}
+	return outs[0].result
+}
+
+var raceMode bool
+
 func reproduces(v symx.Violation, r replayOut) bool {
 	switch v.Kind {
 	case "check":
@@ -948,10 +1005,21 @@ func replayOne(path string) int {
 		Params      map[string]int    `json:"params"`
 		Inputs      map[string]string `json:"inputs"`
 		Kind        string            `json:"kind"`
+		RaceFn      string            `json:"race_fn"`
 	}
 	if err := json.Unmarshal(b, &rec); err != nil {
 		fmt.Fprintln(os.Stderr, err)
 		return 2
+	}
+	if rec.Kind == "lock" {
+		res := nativeRace(rec.PkgRel, rec.HarnessDirs, rec.RaceFn)
+		fmt.Printf("native result: %s\n", res)
+		if strings.Contains(res, "DATA RACE") {
+			fmt.Printf("VIOLATION property=%s replay=%s\n", rec.Property, path)
+			return 1
+		}
+		fmt.Println("does not reproduce on the current tree")
+		return 0
 	}
 	c := candidate{v: symx.Violation{Key: rec.Obligation, Kind: rec.Kind, Inputs: rec.Inputs, Params: rec.Params}, harness: rec.Harness, pkg: rec.PkgRel}
 	outs, err := nativeReplay(rec.PkgRel, rec.HarnessDirs, []candidate{c})
